@@ -258,6 +258,22 @@ def handle (req : Json) : Except String Json := do
     let (rs, ts) := runAll fx (recorded table) st calls
     out := out ++ [("recorded", Json.arr rs.toArray), ("recorded_trace", Json.arr ts.toArray)]
   | .error _ => pure ()
+  -- two wrappers around one learner (`SafeLearner(SafeLearner(L), seed2)`), calls interleaved as `who` says
+  match req.getObjVal? "who", req.getObjVal? "recorded" with
+  | .ok wj, .ok rj =>
+    let who ← (← arr wj).mapM bool
+    let seed2 ← int (← field req "seed2")
+    let table ← (← arr rj).mapM (fun e => do
+      let a ← parseArg (← field e "arg")
+      let r : Except Err PyVal ← (match e.getObjVal? "exc" with
+        | .ok _ => pure (.error .learner)
+        | .error _ => do pure (.ok (← parseVal (← field e "resp"))))
+      pure (a, r))
+    let res := runTwo fx (recorded table) st (rewrap st seed2) (who.zip calls)
+    out := out ++ [("two", ofList (fun (x : Bool × Except Err Result) => match x.2 with
+      | .ok r => obj [("ok", resultToJson r)]
+      | .error e => obj [("err", Json.str (errName e))]) res)]
+  | _, _ => pure ()
   -- the learner of the theorems
   match req.getObjVal? "spec" with
   | .ok sj =>
